@@ -74,7 +74,7 @@ func (w *cliWorld) checkMatching(final bool, faulty bool) {
 			if q.Notify {
 				continue
 			}
-			if q.Got == "" && q.GotErr == "" {
+			if q.Got == "" && q.GotErr == "" && op.Err != nil {
 				continue // operation failed as a whole (op.Err), judged by the caller
 			}
 			pay := payloadOf(q.Got)
